@@ -60,6 +60,9 @@ def _val_to_frac(val):
     return None
 
 
+STATS = {"feasibility_queries": 0, "solver_s": 0.0, "runs": 0, "unknown": 0}
+
+
 class Explorer:
     def __init__(self, ctx, max_paths=512, max_decisions=4096, timeout_ms=5000, extra_facts=()):
         self.ctx = ctx
@@ -90,9 +93,12 @@ class Explorer:
         r = s.check()
         self.solver_s += time.time() - t0
         self.queries += 1
+        STATS["feasibility_queries"] += 1
+        STATS["solver_s"] += time.time() - t0
         r = str(r)
         if r == "unknown":
             self.unknown += 1
+            STATS["unknown"] += 1
         return r, (s.model() if r == "sat" else None)
 
     def feasible(self, conds):
@@ -183,6 +189,7 @@ class Explorer:
             self.ctx.reset_run(forced)
             self.ctx.explorer = self
             self.runs += 1
+            STATS["runs"] += 1
             try:
                 try:
                     out = ("ok", fn())
